@@ -36,6 +36,8 @@ def generate(rng, tier, shard, nshards):
         GM = gens.logu(rng, 1e8, 1e18)
         m = gens.logu(rng, 1e-6, 0.05)
         w = float(np.sqrt(m * GM / (a * a * a * (1 - f)))) * float(rng.choice([-1.0, 1.0]) if i % 5 == 0 else 1.0)
+        if i % 9 == 4:
+            w = 0.0 if i % 2 else w * 1e-6      # a body that does not rotate (m exactly 0, any flattening), or hardly
         yield Case("ellipsoid", reg, a=a, f=f, GM=GM, w=w, lats=[float(x) for x in rng.uniform(-90, 90, 6)], hs=[float(x) for x in np.sort(rng.uniform(0, 0.005 * a, 5))])
     if shard == 0:
         for b in BODIES:
@@ -94,7 +96,8 @@ def judge(ctx, E, a, f, GM, w, lats, hs):
             # 2 m e'/(15 q0) ~ m/e'^2 turns into ~90 eps m/e'^6 of J2: judged only where that is small, with that conditioning as tolerance
             noise = 90 * 2.2e-16 * m / es ** 6
             if noise < 1e-9:
-                ctx.le("J2 = e^2/3 (1 - 2 m e'/(15 q0))", abs(d["J2"] - e2 / 3 * (1 - 2 * m * es / (15 * q0))) / max(e2, 1e-300), 1e-13 + 5 * noise, {"J2": d["J2"], "f": f}, route=r)
+                ctx.le("J2 = e^2/3 (1 - 2 m e'/(15 q0))", abs(d["J2"] - e2 / 3 * (1 - 2 * m * es / (15 * q0))) / max(e2, 1e-300), 1e-13 + 5 * noise + 4 * 2.2e-16 / f,      # (+ the cancellation in a^2 - b^2 of the library's e^2)
+                        {"J2": d["J2"], "f": f}, route=r)
             else:
                 ctx.note("J2 not judged: its closed form is rounding noise for this nearly spherical body")
             ctx.le("normalised C20 = -J2/sqrt(5)", abs(d["C20"] + d["J2"] / np.sqrt(5.0)), 1e-18 + 1e-15 * abs(d["J2"]), route=r)
